@@ -729,6 +729,8 @@ func (i *interpreter) condLocker(p *value) iface {
 
 func (i *interpreter) condWait(fr *frame, p *value) {
 	th := fr.th
+	// taking the ticket is a visible operation: its order relative to Signal/Broadcast decides about wake-ups
+	i.schedPoint(th, "Cond.Wait")
 	c := i.cond(p)
 	w := &condWaiter{}
 	c.waiters = append(c.waiters, w) // ticket taken before unlocking
